@@ -59,12 +59,17 @@ def readNumber (l : LX) : Bytes × LX :=
   let l := readWhile (fun c => Gen.isDigit c || Gen.isDot c) (l.input.size + 2) l
   l.slice position l.pos
 
+/-- `for l.ch == '\\' && l.peekChar() == '"' { l.readChar(); l.readChar() }` -/
+def skipQuoteEscapes : Nat → LX → LX
+  | 0, l => l
+  | fuel+1, l => if l.ch == 92 && l.peekChar == 34 then skipQuoteEscapes fuel l.readChar.readChar else l
+
 def readStringLoop : Nat → LX → LX
   | 0, l => l
   | fuel+1, l =>
     if l.ch != 0 then
       let l := l.readChar
-      let l := if l.ch == 92 && l.peekChar == 34 then l.readChar.readChar else l
+      let l := skipQuoteEscapes (l.input.size + 2) l
       if l.ch == 34 then l else readStringLoop fuel l
     else l
 
